@@ -14,7 +14,7 @@ from mc.result import Result
 
 PROPERTY = 'C15'
 LEVEL = 'exploration'
-CASE_GUARD_S = 3600  # a case is a composite (one block of expressions x all texts ...)
+CASE_GUARD_S = {'quick': 300, 'thorough': 3600}  # a case is a composite (a block of expressions x all texts, ...)
 CHUNK = 30
 RULE = ('P: all FILE-LISTs of <= 2 entries over {a, b, d, d/a, d/e/a} x {file, file =, file +=, dir, dir = {nested}, dir += {nested}, dir = dir-contents-of, dir += dir-contents-of} plus invalid names '
         '(/abs, ../x, d/../x, ..), all lists of 3 over a reduced alphabet (thorough: 3 over the full one), each as `dir d = L` and as `dir d += L` onto a pre-populated directory holding a file, '
